@@ -422,3 +422,8 @@ def r17_6(prog, rep):
     for x in calls_in(f.node):
         if unparse(x.func) in ("self.response.evaluate", "self.common.evaluate", "self.group.evaluate"):
             obl(rep, f, x, "R17.6", c.dominates(c.node_of(ev), c.node_of(x)), f"model.eval dominates {unparse(x.func)}", nontrivial=False)
+
+
+from ..core import guard_rules  # noqa: E402
+
+guard_rules(globals())
